@@ -35,11 +35,17 @@ TablesReasons(e) ==
    (IF \A k \in Kinds : \A s \in reg[k].sources : s \in DOMAIN e.bySource[k] /\ e.bySource[k][s] = NamesOfSeq(reg[k].bySource[s])
       THEN {} ELSE {"lookup-by-source"}) \cup
    (IF \A i \in 1..N : /\ e.byNameMeta[i]
-                       /\ ToSet(e.byNameKinds[i]) = {k \in Kinds : i \in DOMAIN reg[k].byName} /\ Len(e.byNameKinds[i]) = 1
-      THEN {} ELSE {"lookup-by-name"})
+                       /\ ToSet(e.byNameKinds[i]) = {k \in Kinds : i \in DOMAIN reg[k].byName}
+                       /\ Len(e.byNameKinds[i]) = (IF i \in AllNames(reg) THEN 1 ELSE 0)          \* a registered name: in exactly one kind
+      THEN {} ELSE {"lookup-by-name"}) \cup
+   \* the deprecated lookups (Registry.ByName / BySource) know the certificate lints, and exactly those
+   (IF /\ e.depByName
+       /\ \A s \in DOMAIN e.depBySource : e.depBySource[s] = (IF s \in reg["cert"].sources THEN NamesOfSeq(reg["cert"].bySource[s]) ELSE <<>>)
+      THEN {} ELSE {"deprecated-lookup"})
 CensusReasons(e) ==
-   (IF Len(e.names) = N /\ ToSet(e.names) = ToSet(Hdr.names) THEN {} ELSE {"census-differs-from-registry"}) \cup
-   (IF ToSet(e.rawNames) \subseteq ToSet(Hdr.names) THEN {} ELSE {"lint-in-the-sources-is-not-in-the-build"}) \cup
+   \* (Hdr.late: lints the driver itself registers late; they are not part of the tree)
+   (IF Len(e.names) = N - Len(Hdr.late) /\ ToSet(e.names) = ToSet(Hdr.names) \ ToSet(Hdr.late) THEN {} ELSE {"census-differs-from-registry"}) \cup
+   (IF ToSet(e.rawNames) \subseteq ToSet(Hdr.names) \ ToSet(Hdr.late) THEN {} ELSE {"lint-in-the-sources-is-not-in-the-build"}) \cup
    (IF ToSet(e.lintDirs) \subseteq ToSet(e.imported) THEN {} ELSE {"lint-package-not-imported"}) \cup
    (IF ToSet(e.lintTypes) \subseteq ToSet(e.registeredTypes) THEN {} ELSE {"lint-type-never-registered"})
 \* ---- C08: one Filter call
